@@ -107,6 +107,9 @@ type Config struct {
 	Oracle  *oracletypes.Params // nil => built from assets
 	// oracle knobs used when Oracle == nil
 	OracleMaxNonce int32
+	// OracleFeederOrder, when set, is the order (indices into the oracle-priced assets, i.e. token id - 1) in which the
+	// token feeders are listed: feeder id k+1 then serves token OracleFeederOrder[k]+1.
+	OracleFeederOrder []int
 	Mint           exominttypes.Params
 	Slashing       slashingtypes.Params
 	// genesis-loaded undelegation records (C03 variant); must be consistent with the other fields
@@ -184,6 +187,7 @@ func BuildOracleParams(cfg Config) (oracletypes.Params, []oracletypes.Prices) {
 		p.MaxNonce = cfg.OracleMaxNonce
 	}
 	var prices []oracletypes.Prices
+	var feeders []*oracletypes.TokenFeeder
 	for i, a := range cfg.Assets {
 		if !a.HasOracle {
 			continue
@@ -197,18 +201,22 @@ func BuildOracleParams(cfg Config) (oracletypes.Params, []oracletypes.Prices) {
 		if iv == 0 {
 			iv = 10
 		}
-		p.TokenFeeders = append(p.TokenFeeders, &oracletypes.TokenFeeder{
+		feeders = append(feeders, &oracletypes.TokenFeeder{
 			TokenID: id, RuleID: 1, StartRoundID: 1, StartBaseBlock: a.FeederStart, Interval: iv, EndBlock: a.EndBlock,
 		})
 		if a.Price != "" {
-			// round 0 price would be invalid; the store convention used by the repo's own suites:
-			// NextRoundID = StartRoundID+? We seed a "round 1" price and keep NextRoundID 2 only when the feeder
-			// has not started; see the oracle engine for feeder-consistent genesis.
 			prices = append(prices, oracletypes.Prices{
 				TokenID: id, NextRoundID: 2,
 				PriceList: []*oracletypes.PriceTimeRound{{Price: a.Price, Decimal: a.PriceDec, RoundID: 1}},
 			})
 		}
+	}
+	if len(cfg.OracleFeederOrder) == len(feeders) {
+		for _, k := range cfg.OracleFeederOrder {
+			p.TokenFeeders = append(p.TokenFeeders, feeders[k])
+		}
+	} else {
+		p.TokenFeeders = append(p.TokenFeeders, feeders...)
 	}
 	return p, prices
 }
